@@ -213,17 +213,54 @@ def run(ck, F):
                     bad.append(contracts.render(e[1], st, {}))
         sid = '::'.join(contracts.fn_qname(f['id']).split('::')[-2:]) + '/' + str(len(f['params']))
         ck.check(R5, sid, not bad, f'{f["id"]} writes to a pre-existing node: {sorted(set(bad))[:3]}', loc=f['loc'], fn=f['id'])
-    # get_symbol's re-typing of a found element, checked separately: the value written equals the key component compared
-    ck.note('get_symbol re-stores the type of a found symbol; the comparator (C04 KEY) shows the found element already has that type')
+    # (a write to a found element is judged by C05.later-request-leaves-nodes: the value written must equal the value held)
 
     # ---------------------------------------------------------------- a later request leaves earlier nodes as they were
     R6 = ck.rule('C05.later-request-leaves-nodes', 'a second request to the same factory (any arguments, evaluated on the state the '
                  'first one left: found, redeclared and fresh paths) changes no field of an object that existed before it; it may only '
                  'grow the factory\'s containers', floor=240)
     import keyrule
-    REWRITE_ALLOWED = {('ipr::impl::Symbol', 'typing'):
-                       'get_symbol stores the type again on a symbol it found by (name, type): the comparator (C04 KEY) '
-                       'shows the found element already carries that type'}
+    SK = Sym(F, opaque=keyrule.key_opaque(F), max_depth=48)
+
+    def deep(t, st, d=0):
+        """value of a term with the abstract value objects it designates expanded (an Optional is what it holds)"""
+        if not isinstance(t, tuple):
+            return t
+        if t and t[0] == 'obj' and len(t) == 2 and t[1] in st.heap and d < 6:
+            o = st.heap[t[1]]
+            return ('val', o.cls, tuple((n, deep(v, st, d + 1)) for n, v in sorted(o.fields.items())))
+        return tuple(deep(x, st, d) for x in t)
+
+    def rewrite(t, eqs):
+        for a, b in eqs:
+            if t == b:
+                return a
+        if isinstance(t, tuple):
+            return tuple(rewrite(x, eqs) for x in t)
+        return t
+
+    def found_equalities(st2, base_eff):
+        """what `the table found an equal element` means on this path: the component comparisons of the comparator Sema
+        selected, evaluated on (found element, key), are all zero; for identity comparisons that is a = b"""
+        eqs = []
+        for c, val in st2.conds:
+            if not (val and isinstance(c, tuple) and c and c[0] == 'found' and c[3] is not None):
+                continue
+            _f, recv, key, el = c
+            for e in st2.effects[base_eff:]:
+                if not (e[0] in ('tree_insert', 'tree_find', 'chain_insert', 'chain_find') and e[1] == recv and e[2] == key):
+                    continue
+                comp, ifid, snap = e[3], e[5], e[6]
+                try:
+                    outs = SK.run(keyrule.comparator_in(F, ifid), this=comp, args=[el, key], state=snap.fork())
+                except Unsupported:
+                    continue
+                for kind, a, b, _x in keyrule.LexShape().analyse(outs, len(snap.conds)):
+                    if kind == 'scalar':
+                        eqs.append((deep(a, outs[0][0]), deep(b, outs[0][0])))
+        return eqs
+
+    restored = []
     for f in sorted(wire.all_factories(F), key=lambda f: f['id']):
         sid = '::'.join(contracts.fn_qname(f['id']).split('::')[-2:]) + '/' + str(len(f['params']))
         bad = []
@@ -232,18 +269,38 @@ def run(ck, F):
                 if k1 != 'return':
                     continue
                 snap = {i: dict(o.fields) for i, o in st1.heap.items()}
+                base_eff = len(st1.effects)
                 for st2, _k2, _v2 in S.run(f['id'], args=keyrule.qparams(len(f['params'])), state=st1.fork()):
+                    eqs = None
                     for i, before in snap.items():
                         now = st2.heap[i].fields
                         for name in set(before) | set(now):
-                            if before.get(name) != now.get(name) and (st1.heap[i].cls, name) not in REWRITE_ALLOWED:
-                                bad.append(f'{contracts.short(st1.heap[i].cls)}::{name} of an object built by the first request '
-                                           f'is overwritten by the second')
+                            if before.get(name) == now.get(name):
+                                continue
+                            # storing again the value the field already holds changes nothing: decided on the values, with the
+                            # identities that `found` implies on this path (the comparator's components are all equal)
+                            if eqs is None:
+                                eqs = found_equalities(st2, base_eff)
+                            old_v, new_v = deep(before.get(name), st1), deep(now.get(name), st2)
+                            if eqs and rewrite(new_v, eqs) == old_v:
+                                restored.append(f'{sid}: {contracts.short(st1.heap[i].cls)} re-stores a value equal to the one held '
+                                                f'(equal by the comparator of the table that found the element)')
+                                continue
+                            bad.append(f'a field of the {contracts.short(st1.heap[i].cls)} built by the first request is overwritten by the '
+                                       f'second with {contracts.render(now.get(name), st2, {})[:80]} (was {contracts.render(before.get(name), st1, {})[:80]})')
         except Unsupported as e:
             raise AnalysisBroken(f'{f["id"]} (second request): {e}')
         ck.check(R6, sid, not bad, f'{f["id"]}: ' + '; '.join(sorted(set(bad))[:3]), loc=f['loc'], fn=f['id'])
-    for (c, n), why in REWRITE_ALLOWED.items():
-        ck.note(f'{contracts.short(c)}::{n} may be re-stored: {why}')
+    for r in sorted(set(restored)):
+        ck.note(r)
+
+    # ---------------------------------------------------------------- spelling lives in storage the Lexicon owns
+    R7 = ck.rule('C05.owned-bytes', 'every String node created by intern views the arena copy of the word (data and length of one header '
+                 'returned by make_string(word.data(), word.length())), never the caller\'s buffer: a spelling cannot change or dangle '
+                 'when the caller reuses its buffer', floor=1)
+    import arena
+    for inst, ok, msg, loc, fid in arena.owned_bytes(F):
+        ck.check(R7, inst, ok, msg, loc=loc, fn=fid)
 
     # immotile: copy/move disabled for node classes (supporting fact)
     movable = [n for n in sorted(node_like) if not F.rec[n]['abstract'] and F.derives_from(n, 'ipr::Node')
